@@ -18,6 +18,7 @@ import (
 	"testing"
 	"time"
 
+	gerrors "github.com/tochemey/goakt/v4/errors"
 	"github.com/tochemey/goakt/v4/internal/commands"
 	"github.com/tochemey/goakt/v4/log"
 	"github.com/tochemey/goakt/v4/test/data/testpb"
@@ -100,6 +101,94 @@ func rdFlush(ctx context.Context, pids ...*PID) {
 		case <-time.After(10 * time.Second):
 		}
 	}
+}
+
+// ---------------------------------------------------------------- an in-memory durable producer queue
+
+// rdMemQueue is a linearizable in-memory DurableProducerQueue following the interface contract: epoch
+// fencing, first-write-wins by MessageID, contiguous sequence assignment, cumulative confirmation.
+type rdMemQueue struct {
+	mu           sync.Mutex
+	epoch        QueueEpoch
+	currentSeq   int64
+	confirmedSeq int64
+	stored       []UnconfirmedMessage
+	accepted     map[string]bool
+	log          []string
+}
+
+func (x *rdMemQueue) ID() string                     { return "rdMemQueue" }
+func (x *rdMemQueue) MarshalBinary() ([]byte, error) { return []byte(x.ID()), nil }
+func (x *rdMemQueue) UnmarshalBinary([]byte) error   { return nil }
+
+func (x *rdMemQueue) Load(context.Context) (DurableQueueState, QueueEpoch, error) {
+	x.mu.Lock()
+	defer x.mu.Unlock()
+	x.epoch++
+	var un []UnconfirmedMessage
+	for _, m := range x.stored {
+		if m.Seq() > x.confirmedSeq {
+			un = append(un, m)
+		}
+	}
+	st, err := NewDurableQueueState(x.currentSeq, x.confirmedSeq, un)
+	return st, x.epoch, err
+}
+
+func (x *rdMemQueue) Store(_ context.Context, epoch QueueEpoch, request StoreRequest) (StoreResult, error) {
+	x.mu.Lock()
+	defer x.mu.Unlock()
+	if epoch != x.epoch {
+		return StoreResult{}, gerrors.ErrQueueFenced
+	}
+	for _, m := range x.stored {
+		if m.MessageID() == request.MessageID() {
+			return NewStoreResult(m.Seq(), true, m.Payload())
+		}
+	}
+	if request.ProposedSeq() != x.currentSeq+1 {
+		return StoreResult{}, gerrors.ErrQueueConflict
+	}
+	m, err := NewUnconfirmedMessage(request.MessageID(), request.ProposedSeq(), request.Payload())
+	if err != nil {
+		return StoreResult{}, err
+	}
+	x.currentSeq++
+	x.stored = append(x.stored, m)
+	x.log = append(x.log, fmt.Sprintf("store %s %d", request.MessageID(), m.Seq()))
+	return NewStoreResult(m.Seq(), false, m.Payload())
+}
+
+func (x *rdMemQueue) StoreChunked(context.Context, QueueEpoch, []StoreRequest) ([]StoreResult, error) {
+	return nil, gerrors.ErrQueueConflict
+}
+
+func (x *rdMemQueue) Accept(_ context.Context, epoch QueueEpoch, messageID string) error {
+	x.mu.Lock()
+	defer x.mu.Unlock()
+	if epoch != x.epoch {
+		return gerrors.ErrQueueFenced
+	}
+	if x.accepted == nil {
+		x.accepted = map[string]bool{}
+	}
+	x.accepted[messageID] = true
+	return nil
+}
+
+func (x *rdMemQueue) Confirm(_ context.Context, epoch QueueEpoch, upToSeq int64) error {
+	x.mu.Lock()
+	defer x.mu.Unlock()
+	if epoch != x.epoch {
+		return gerrors.ErrQueueFenced
+	}
+	if upToSeq > x.currentSeq {
+		return gerrors.ErrQueueConflict
+	}
+	if upToSeq > x.confirmedSeq {
+		x.confirmedSeq = upToSeq
+	}
+	return nil
 }
 
 // ---------------------------------------------------------------- identifier numbering
@@ -239,23 +328,32 @@ type rdCase struct {
 	Mode       string    `json:"mode"`
 	Window     int       `json:"window"`
 	Notify     bool      `json:"notify"`
+	Chunk      int       `json:"chunk"`           // maxChunkBytes of the producer flow (0: chunking disabled)
+	Durable    bool      `json:"durable"`         // the producer flow runs on a durable queue (asynchronous store/accept/confirm lane)
+	QueueConf  int64     `json:"queue_confirmed"` // the queue's persisted confirmation watermark at the end
+	QueueSeq   int64     `json:"queue_seq"`
 	Ops        []rdOp    `json:"ops"`
 	Obs        [][]int64 `json:"obs"` // Obs[0]: initial observation; Obs[k]: after Ops[k-1]
 	PayloadBad int       `json:"payload_bad"`
 	Chunked    int       `json:"chunked_seen"`
 	Drained    int       `json:"drained"` // -1: no drain phase, 0: something left unconfirmed, 1: everything confirmed
 	Failed     bool      `json:"failed"`
+	Runaway    bool      `json:"runaway"` // the loss-free fair tail did not become quiescent within the step budget
 	Error      string    `json:"error,omitempty"`
 }
+
+// rdMaxOps bounds one case: a fair tail that keeps generating traffic is cut and reported.
+const rdMaxOps = 2500
 
 type rdWorld struct {
 	ctx    context.Context
 	sys    *actorSystem
 	ids    *rdIDs
 	window int
+	chunk  int
 
 	prodRec, consRec, pcsRec, ccsRec, strangerRec *rdRecorder
-	prod, cons, pcs, ccs, stranger             *PID
+	prod, cons, pcs, ccs, stranger                *PID
 
 	pc           *producerController
 	cc           *consumerController
@@ -267,14 +365,26 @@ type rdWorld struct {
 	newCons      []any // told to the consumer endpoint in the last step
 
 	payloadBad, chunked int
+
+	queue   *rdMemQueue
+	results []any // completed durable operations not yet delivered to the controller
 }
 
 func rdSpawn(ctx context.Context, sys *actorSystem, name string, a Actor, opts ...SpawnOption) (*PID, error) {
 	return sys.Spawn(ctx, name, a, opts...)
 }
 
-func newRdWorld(ctx context.Context, sys *actorSystem, tag string, window int, notify bool) (*rdWorld, error) {
-	w := &rdWorld{ctx: ctx, sys: sys, ids: newRdIDs(), window: window,
+// rdContent is the payload produced for message number mid: with chunking enabled its size varies so that
+// messages need one to four chunks.
+func rdContent(mid int64, chunk int) string {
+	if chunk <= 0 {
+		return rdMidS(mid)
+	}
+	return rdMidS(mid) + strings.Repeat(string(rune('a'+mid%26)), int(mid%4)*chunk*3/4)
+}
+
+func newRdWorld(ctx context.Context, sys *actorSystem, tag string, window int, notify bool, chunk int, durable bool) (*rdWorld, error) {
+	w := &rdWorld{ctx: ctx, sys: sys, ids: newRdIDs(), window: window, chunk: chunk,
 		prodRec: &rdRecorder{}, consRec: &rdRecorder{}, pcsRec: &rdRecorder{}, ccsRec: &rdRecorder{}, strangerRec: &rdRecorder{}}
 	var err error
 	if w.prod, err = rdSpawn(ctx, sys, "vprod-"+tag, w.prodRec); err != nil {
@@ -300,9 +410,14 @@ func newRdWorld(ctx context.Context, sys *actorSystem, tag string, window int, n
 	if w.ccs, err = rdSpawn(ctx, sys, reliableCompanionName(ReliableControllerRoleConsumer, w.cons.IncarnationID()), w.ccsRec, asSystem(), asReliableCompanion(specC)); err != nil {
 		return nil, err
 	}
-	pconf := &reliableProducerConfig{consumerName: w.cons.Name(), retryInterval: time.Hour, deliveryConfirmation: notify,
+	pconf := &reliableProducerConfig{consumerName: w.cons.Name(), retryInterval: time.Hour, deliveryConfirmation: notify, maxChunkBytes: uint32(chunk),
 		queueRetry: &reliableQueueRetryConfig{maxAttempts: 1, initialBackoff: time.Millisecond}}
-	w.pc = newProducerController(w.prod, pconf, nil)
+	if durable {
+		w.queue = &rdMemQueue{}
+		w.pc = newProducerController(w.prod, pconf, w.queue)
+	} else {
+		w.pc = newProducerController(w.prod, pconf, nil)
+	}
 	w.pcSh = &rdShell{inner: w.pc, started: make(chan struct{})}
 	if w.pcPID, err = rdSpawn(ctx, sys, "vpc-"+tag, w.pcSh); err != nil {
 		return nil, err
@@ -357,7 +472,7 @@ func (w *rdWorld) encMsg(m any) []int64 {
 	case *commands.Ack:
 		return []int64{13, ids.sessN(x.SessionID()), ids.nonceN(x.RegistrationNonce()), x.ConfirmedSeq()}
 	case *Delivery:
-		if r, ok := x.Payload().(*testpb.Reply); !ok || r.GetContent() != x.MessageID() {
+		if r, ok := x.Payload().(*testpb.Reply); !ok || r.GetContent() != rdContent(rdMidN(x.MessageID()), w.chunk) {
 			w.payloadBad++
 		}
 		return []int64{14, ids.sessN(x.SessionID()), rdMidN(x.MessageID()), x.Seq()}
@@ -400,7 +515,27 @@ func (w *rdWorld) encC() []int64 {
 }
 
 // observe collects what the last step sent, per recipient, and the state of both controllers.
+// collectResults waits for the single durable operation in flight (if any) to complete and parks its result.
+func (w *rdWorld) collectResults() {
+	if w.queue == nil {
+		return
+	}
+	deadline := time.Now().Add(5 * time.Second)
+	for {
+		for _, m := range w.pcSh.takeStray() {
+			if r, ok := m.(*queueOpResult); ok {
+				w.results = append(w.results, r)
+			}
+		}
+		if !w.pc.opInFlight || len(w.results) > 0 || !w.pcPID.IsRunning() || time.Now().After(deadline) {
+			return
+		}
+		time.Sleep(50 * time.Microsecond)
+	}
+}
+
 func (w *rdWorld) observe(pShut, cShut bool) []int64 {
+	w.collectResults()
 	rdFlush(w.ctx, w.ccs, w.prod, w.pcs, w.cons)
 	toCC, toProd, toPC, toCons := w.ccsRec.take(), w.prodRec.take(), w.pcsRec.take(), w.consRec.take()
 	w.netCC = append(w.netCC, toCC...)
@@ -446,7 +581,7 @@ func (w *rdWorld) who(auth bool, p *PID) *PID {
 // apply executes one schedule op on the real controllers and returns the observation.
 func (w *rdWorld) apply(o rdOp) ([]int64, error) {
 	ids := w.ids
-	payload := func(mid int64) any { return &testpb.Reply{Content: rdMidS(mid)} }
+	payload := func(mid int64) any { return &testpb.Reply{Content: rdContent(mid, w.chunk)} }
 	switch o.Op {
 	case "DeliverPC":
 		if o.I >= len(w.netPC) {
@@ -458,6 +593,13 @@ func (w *rdWorld) apply(o rdOp) ([]int64, error) {
 			return w.observe(false, false), nil
 		}
 		return w.stepCC(w.pcs, w.netCC[o.I], o.G), nil
+	case "QueueResult":
+		if len(w.results) == 0 {
+			return w.observe(false, false), nil
+		}
+		r := w.results[0]
+		w.results = w.results[1:]
+		return w.stepPC(w.pcPID, r), nil
 	case "TickPC":
 		return w.stepPC(w.pcPID, &producerControllerTick{generation: w.pc.generation}), nil
 	case "TickCC":
@@ -525,19 +667,19 @@ func (w *rdWorld) apply(o rdOp) ([]int64, error) {
 // ---------------------------------------------------------------- online schedule generation
 
 type rdMode struct {
-	name                                                          string
-	wDelPC, wDelCC, wDropPC, wDropCC, wOldPC, wOldCC              int
+	name                                                           string
+	wDelPC, wDelCC, wDropPC, wDropCC, wOldPC, wOldCC               int
 	wTickPC, wTickCC, wProd, wCons, wStaleConf, wRaw, wBadEndpoint int
-	dupKeep, reorder                                              int // percent
-	gapok                                                         int // percent of steps whose gap-request clock oracle says "allowed"
+	dupKeep, reorder                                               int // percent
+	gapok                                                          int // percent of steps whose gap-request clock oracle says "allowed"
 }
 
 var rdModes = map[string]rdMode{
-	"smooth":   {name: "smooth", wDelPC: 40, wDelCC: 40, wOldPC: 1, wOldCC: 1, wTickPC: 2, wTickCC: 2, wProd: 30, wCons: 30, dupKeep: 2, reorder: 3, gapok: 80},
-	"lossy":    {name: "lossy", wDelPC: 26, wDelCC: 26, wDropPC: 7, wDropCC: 9, wOldPC: 6, wOldCC: 8, wTickPC: 6, wTickCC: 12, wProd: 22, wCons: 20, wStaleConf: 3, dupKeep: 25, reorder: 40, gapok: 50},
-	"slowcons": {name: "slowcons", wDelPC: 30, wDelCC: 40, wDropCC: 4, wOldCC: 6, wTickPC: 3, wTickCC: 5, wProd: 35, wCons: 5, dupKeep: 10, reorder: 50, gapok: 50},
+	"smooth":      {name: "smooth", wDelPC: 40, wDelCC: 40, wOldPC: 1, wOldCC: 1, wTickPC: 2, wTickCC: 2, wProd: 30, wCons: 30, dupKeep: 2, reorder: 3, gapok: 80},
+	"lossy":       {name: "lossy", wDelPC: 26, wDelCC: 26, wDropPC: 7, wDropCC: 9, wOldPC: 6, wOldCC: 8, wTickPC: 6, wTickCC: 12, wProd: 22, wCons: 20, wStaleConf: 3, dupKeep: 25, reorder: 40, gapok: 50},
+	"slowcons":    {name: "slowcons", wDelPC: 30, wDelCC: 40, wDropCC: 4, wOldCC: 6, wTickPC: 3, wTickCC: 5, wProd: 35, wCons: 5, dupKeep: 10, reorder: 50, gapok: 50},
 	"badendpoint": {name: "badendpoint", wDelPC: 26, wDelCC: 26, wDropPC: 5, wDropCC: 6, wOldPC: 4, wOldCC: 6, wTickPC: 6, wTickCC: 10, wProd: 22, wCons: 20, wStaleConf: 3, wBadEndpoint: 1, dupKeep: 20, reorder: 30, gapok: 50},
-	"hostile":  {name: "hostile", wDelPC: 24, wDelCC: 24, wDropPC: 5, wDropCC: 5, wOldPC: 5, wOldCC: 5, wTickPC: 6, wTickCC: 8, wProd: 20, wCons: 18, wStaleConf: 4, wRaw: 9, wBadEndpoint: 2, dupKeep: 20, reorder: 30, gapok: 50},
+	"hostile":     {name: "hostile", wDelPC: 24, wDelCC: 24, wDropPC: 5, wDropCC: 5, wOldPC: 5, wOldCC: 5, wTickPC: 6, wTickCC: 8, wProd: 20, wCons: 18, wStaleConf: 4, wRaw: 9, wBadEndpoint: 2, dupKeep: 20, reorder: 30, gapok: 50},
 }
 
 type rdSched struct {
@@ -574,6 +716,10 @@ func (s *rdSched) sync() {
 
 // do applies the op, records it with its observation; false when the case must stop.
 func (s *rdSched) do(o rdOp) bool {
+	if len(s.c.Ops) >= rdMaxOps {
+		s.c.Runaway = true
+		return false
+	}
 	obs, err := s.w.apply(o)
 	if err != nil {
 		s.c.Error = err.Error()
@@ -711,6 +857,9 @@ func (s *rdSched) next() rdOp {
 		{m.wCons, s.consumerHandle},
 		{m.wRaw, func() (rdOp, bool) { return s.rawOp(), true }},
 	}
+	if len(s.w.results) > 0 {
+		cands = append(cands, cand{30, func() (rdOp, bool) { return rdOp{Op: "QueueResult"}, true }})
+	}
 	if len(s.pendPC) > 0 {
 		cands = append(cands, cand{m.wDelPC, func() (rdOp, bool) {
 			if len(s.pendPC) == 0 {
@@ -790,6 +939,12 @@ func (s *rdSched) drain(maxRounds int) bool {
 	for round := 0; round < maxRounds; round++ {
 		for guard := 0; guard < 400; guard++ {
 			progressed := false
+			for len(s.w.results) > 0 {
+				if !s.do(rdOp{Op: "QueueResult"}) {
+					return false
+				}
+				progressed = true
+			}
 			for len(s.pendPC) > 0 {
 				i := s.pendPC[0]
 				s.pendPC = s.pendPC[1:]
@@ -840,9 +995,9 @@ func (s *rdSched) drain(maxRounds int) bool {
 	return s.w.pc.confirmedSeq == s.w.pc.currentSeq
 }
 
-func rdRunCase(ctx context.Context, sys *actorSystem, id, mode string, window int, notify bool, steps int, seed uint64, scripted []rdOp) *rdCase {
-	c := &rdCase{ID: id, Mode: mode, Window: window, Notify: notify, Drained: -1}
-	w, err := newRdWorld(ctx, sys, id, window, notify)
+func rdRunCase(ctx context.Context, sys *actorSystem, id, mode string, window int, notify bool, chunk int, durable bool, steps int, seed uint64, scripted []rdOp) *rdCase {
+	c := &rdCase{ID: id, Mode: mode, Window: window, Notify: notify, Chunk: chunk, Durable: durable, Drained: -1}
+	w, err := newRdWorld(ctx, sys, id, window, notify, chunk, durable)
 	if err != nil {
 		c.Error = "setup: " + err.Error()
 		return c
@@ -866,11 +1021,16 @@ func rdRunCase(ctx context.Context, sys *actorSystem, id, mode string, window in
 			if s.drain(14) {
 				c.Drained = 1
 			} else if !c.Failed && c.Error == "" {
-				c.Drained = 0
+				c.Drained = 0 // includes a runaway tail
 			}
 		}
 	}
 	c.PayloadBad, c.Chunked = w.payloadBad, w.chunked
+	if w.queue != nil {
+		w.queue.mu.Lock()
+		c.QueueConf, c.QueueSeq = w.queue.confirmedSeq, w.queue.currentSeq
+		w.queue.mu.Unlock()
+	}
 	return c
 }
 
@@ -888,13 +1048,15 @@ func rdSystem(t *testing.T) (context.Context, *actorSystem) {
 }
 
 type rdPlan struct {
-	ID     string `json:"id"`
-	Mode   string `json:"mode"`
-	Window int    `json:"window"`
-	Notify bool   `json:"notify"`
-	Steps  int    `json:"steps"`
-	Seed   uint64 `json:"seed"`
-	Ops    []rdOp `json:"ops,omitempty"` // scripted case (corpus / replay): executed verbatim
+	ID      string `json:"id"`
+	Mode    string `json:"mode"`
+	Window  int    `json:"window"`
+	Notify  bool   `json:"notify"`
+	Chunk   int    `json:"chunk,omitempty"`
+	Durable bool   `json:"durable,omitempty"`
+	Steps   int    `json:"steps"`
+	Seed    uint64 `json:"seed"`
+	Ops     []rdOp `json:"ops,omitempty"` // scripted case (corpus / replay): executed verbatim
 }
 
 func rdRunPlans(t *testing.T, inName, outName string) {
@@ -903,7 +1065,7 @@ func rdRunPlans(t *testing.T, inName, outName string) {
 	defer out.close()
 	ctx, sys := rdSystem(t)
 	for _, p := range plans {
-		out.put(rdRunCase(ctx, sys, p.ID, p.Mode, p.Window, p.Notify, p.Steps, p.Seed, p.Ops))
+		out.put(rdRunCase(ctx, sys, p.ID, p.Mode, p.Window, p.Notify, p.Chunk, p.Durable, p.Steps, p.Seed, p.Ops))
 	}
 }
 
